@@ -18,6 +18,14 @@ CLAIMED = {
   text="Machine-checked proof over all integers: bintime->datetime/hightime floor with error in [0, 1 unit), datetime->bintime floor (< 1 tick) and exact when representable, hightime->bintime nearest tick (<= 1/2 tick) and exact when representable, hightime->datetime floor, datetime->hightime->datetime and bintime->hightime->bintime identities, monotonicity of all four bintime conversions (incl. round-half-even), same-type identity, tz rules of the dispatch, TimeDelta(int) exact, TimeDelta(float|Decimal) nearest tick / exact / OverflowError iff out of range; built on integer pieces regenerated from _timedelta.py. Correspondence over all nine pairs (direct and through Timing.to_*), tz kinds, range edges, history-built sources; total_seconds (2 ulp) and precision_total_seconds round trip by exact-rational oracle in Coq (partial).",
   design="DESIGN.md §7 C04", tech="Coq proof (lia/nia with Euclidean division) over regenerated pieces + hand model of the Decimal/float entry point; in-Coq correspondence",
   note=TB + "translator; Model/Convert.v models Decimal (prec 64) and float entry points as exact rationals; datetime/hightime arithmetic outside /repo assumed exact."),
+ "C08": dict(
+  text="Machine-checked proof over all integers/lists: the regular generator (written as the code: first element then repeated +=) yields exactly n timestamps and the k-th equals timestamp+offset+(i+k)*interval (no drift); irregular windows are firstn/skipn or ValueError, never fewer; NoTimestampInformationError / ValueError cases; the direction state machine accepts exactly the non-decreasing or non-increasing sequences. Correspondence on all three families incl. range-limit OverflowError paths, exhaustive short windows and sequences, hostile mutation of the caller's list.",
+  design="DESIGN.md §7 C08", tech="Coq proof (induction) over a hand model + in-Coq correspondence",
+  note=TB + "hand model of Timing/strategies tied by correspondence; datetime/hightime arithmetic and range limits assumed (given to the model as parameters)."),
+ "C20": dict(
+  text="Machine-checked proof: timing_init (validation order of the three strategies) accepts exactly the combinations of the mode table and otherwise raises TypeError/ValueError; flags equal presence, absent members raise RuntimeError, mode preserved, empty has no members, equality iff all members equal. Correspondence EXHAUSTIVE over modes x member kinds (three families, zero values, wrong types) x timestamps kinds x constructors, with setattr and hostile-caller probes on every constructed object.",
+  design="DESIGN.md §7 C20", tech="Coq proof (case analysis) over a hand model + exhaustive in-Coq correspondence",
+  note=TB + "hand model tied by the exhaustive correspondence; immutability is structural in the model and probed on the real objects."),
  "C14": dict(
   text="Machine-checked proof: for every integer tick count the regenerated TimeDelta fields lie in their normalized ranges and add up to the value floored to a yoctosecond; str() parts (regenerated, including the rounding carry) are within 1/2*10^-18 s; DateTime h/m/s/us/fs/ys fields, the calendar model (bijection days <-> valid dates for every day: complete 146097-day era sweep by vm_compute lifted by 400-year periodicity), all nine fields identify the floored instant, and building a DateTime from its fields returns the same ticks (uses the bt->ht->bt identity). Correspondence: fields/str/repr of objects reached through five construction paths, constructor from field tuples, datetime.date.fromordinal vs the calendar model.",
   design="DESIGN.md §7 C14", tech="Coq proof (lia + finite sweep lifted by periodicity) over translator-regenerated fields + in-Coq correspondence",
